@@ -1,6 +1,6 @@
 """Correspondence engine: run the same protocol lines through the implementation (scratch copy of
 /repo's working tree, in worker processes) and through the compiled Lean model; diff canonical output."""
-import multiprocessing as mp, os, sys, time
+import multiprocessing as mp, os, re, sys, time
 HERE = os.path.dirname(os.path.abspath(__file__))
 sys.path.insert(0, HERE)
 import sqimpl, modeldrv
@@ -9,11 +9,38 @@ JOBS = int(os.environ.get('VERIF_JOBS', '16'))
 _impl = None
 
 
+_hist = None
+_hist_n = 0
+_HIST_DIR = None
+
+
 def _init(scratch):
-    global _impl
+    global _impl, _hist, _HIST_DIR
     os.environ['SQ_SCRATCH'] = scratch
     sys.setrecursionlimit(20000)
     _impl = None
+    _HIST_DIR = scratch
+    _hist = None
+
+
+def _note(line):
+    """a worker's own record of the stateful calls it has made (kept short): when a call never returns, the
+    parent reads it to report the history that led to the hang"""
+    global _hist, _hist_n
+    if _HIST_DIR is None:
+        return
+    if _hist is None or _hist_n > 4000:
+        tail = []
+        path = os.path.join(_HIST_DIR, 'hist_%d.log' % os.getpid())
+        if _hist is not None:
+            _hist.close()
+            tail = open(path).read().split('\n')[-400:]
+        _hist = open(path, 'w')
+        _hist.write('\n'.join(tail))
+        _hist_n = 0
+    _hist.write(line + '\n')
+    _hist.flush()
+    _hist_n += 1
 
 
 def get_impl():
@@ -44,16 +71,26 @@ def impl_answer(line):
 def _impl_chunk(lines):
     out = []
     for l in lines:
+        noted = not l.startswith(('PARSE', 'LEX', 'NAMES'))
+        if noted:
+            _note(l)
         try:
             out.append(impl_answer(l))
         except RecursionError:
             out.append('X RecursionError')
         except Exception as e:
             out.append('HARNESS-ERROR ' + type(e).__name__ + ' ' + str(e)[:200].replace('\n', ' '))
+        if noted and _hist is not None:
+            _hist.write('<\n')
+    if _hist is not None:
+        _hist.flush()
     return out
 
 
 _pool = None
+STALL = float(os.environ.get('VERIF_STALL', '120'))      # seconds without any chunk finishing = a hang
+HANG_BUDGET = float(os.environ.get('VERIF_HANG_BUDGET', '300'))   # seconds spent isolating hangs per call
+hang_log = []          # (lines of the smallest hanging segment) for the evidence / replay files
 
 
 def pool():
@@ -64,15 +101,123 @@ def pool():
     return _pool
 
 
+def _kill_pool():
+    global _pool
+    if _pool is not None:
+        try:
+            _pool.terminate()
+            _pool.join()
+        except Exception:
+            pass
+        _pool = None
+
+
+stuck_histories = []     # for every hang seen: the recent calls of each worker process at that moment
+
+
+def _collect_histories():
+    import glob
+    d = sqimpl.scratch_dir()
+    for f in glob.glob(os.path.join(d, 'hist_*.log')):
+        try:
+            h = [x for x in open(f).read().split('\n') if x][-600:]
+        except Exception:
+            continue
+        if h and h[-1] != '<':           # this worker was inside a call
+            pid = int(re.search(r'hist_(\d+)\.log', f).group(1))
+            try:
+                os.kill(pid, 0)
+                dead = False
+            except OSError:
+                dead = True
+            stuck_histories.append((h[-1], [x for x in h if x != '<'][-300:], dead))
+        try:
+            os.remove(f)
+        except OSError:
+            pass
+
+
+def _run_chunks(chunks, stall):
+    """run the chunks in the pool; returns (results, unfinished indices).  A call that makes no progress for
+    `stall` seconds is abandoned: the pool is killed (hung or dead workers) and the caller isolates the culprit."""
+    p = pool()
+    asyncs = [p.apply_async(_impl_chunk, (c,)) for c in chunks]
+    res = [None] * len(chunks)
+    left = set(range(len(chunks)))
+    last = time.time()
+    while left:
+        prog = False
+        for i in list(left):
+            if asyncs[i].ready():
+                try:
+                    res[i] = asyncs[i].get(0)
+                except Exception as e:          # the worker died with the task
+                    res[i] = None
+                    continue
+                left.discard(i)
+                prog = True
+        if prog:
+            last = time.time()
+        elif time.time() - last > stall:
+            _collect_histories()
+            _kill_pool()
+            return res, sorted(left)
+        else:
+            time.sleep(0.02)
+    return res, []
+
+
+def _isolate(lines, deadline, top=False):
+    """answers for a chunk that did not come back: bisect to the smallest segment that hangs (or kills its
+    worker) when run from a fresh process; that segment's last line is answered `X worker-hang`."""
+    if time.time() > deadline:
+        return ['X worker-hang (not isolated)'] * len(lines)
+    res, left = _run_chunks([lines], min(STALL, 60))
+    if not left:
+        return res[0]
+    if len(lines) == 1:
+        hang_log.append(list(lines))
+        dead = any(d for (l, _, d) in stuck_histories[-JOBS:] if l == lines[0])
+        return ['X worker-crash' if dead else 'X worker-hang']
+    h = len(lines) // 2
+    a = _isolate(lines[:h], deadline)
+    b = _isolate(lines[h:], deadline)
+    if not any(x.startswith(('X worker-hang', 'X worker-crash')) for x in a + b):
+        # neither half hangs on its own: the hang needs the history of the whole segment
+        hang_log.append(list(lines))
+        b = b[:-1] + ['X worker-hang (after %d earlier calls in the same process)' % (len(lines) - 1)]
+    return a + b
+
+
 def run_impl(lines, chunk=500):
     if lines and lines[0].startswith(('SESSION', 'FRESH', 'MON c11', 'MON c17', 'MON c05', 'MON c03_adders', 'MON c13')):
         chunk = 4
     elif lines and lines[0].startswith('MON'):
         chunk = 100
-    if len(lines) <= chunk:
-        return _impl_chunk(lines)
+    if not lines:
+        return []
     chunks = [lines[i:i + chunk] for i in range(0, len(lines), chunk)]
-    res = pool().map(_impl_chunk, chunks)
+    res, left = _run_chunks(chunks, STALL)
+    if left:
+        n_stuck = len(stuck_histories)
+        deadline = time.time() + HANG_BUDGET
+        # chunks that were merely queued behind the hung ones finish at once; the others are bisected
+        res2, left2 = _run_chunks([chunks[i] for i in left], min(STALL, 60))
+        for j, i in enumerate(left):
+            if j not in left2:
+                res[i] = res2[j]
+        for j in left2:
+            res[left[j]] = _isolate(chunks[left[j]], deadline, top=True)
+        # a call that hung in a long-lived worker but answers from a fresh process: the hang depends on what that
+        # worker had evaluated before (module-level state in the implementation) - report it with that history
+        for inflight, hist, dead in stuck_histories[n_stuck:]:
+            for i in left:
+                if inflight in chunks[i]:
+                    j = chunks[i].index(inflight)
+                    if res[i] is not None and not res[i][j].startswith(('X worker-hang', 'X worker-crash')):
+                        res[i][j] = ('X worker-crash' if dead else 'X worker-hang') + ' (history-dependent)'
+                        hang_log.append(hist)
+                    break
     return [x for r in res for x in r]
 
 
